@@ -8,7 +8,8 @@ Record tr_spec := {
   ts_sp : ro_spec;
   ts_strategies : list strategy;          (* traffic configuration of each step, aligned with rs_steps *)
   ts_refs : bool;                          (* spec.strategy.canary.trafficRoutings is not empty *)
-  ts_zero_grace : bool
+  ts_zero_grace : bool;
+  ts_gateway_fails : bool                  (* fault injection: every read of the gateway object fails in this reconcile *)
 }.
 
 Definition no_traffic : strategy := {| st_weight := None; st_match := None |}.
@@ -17,11 +18,11 @@ Definition tr_strategy (t : tr_spec) (idx : Z) : strategy :=
   match znth (ts_strategies t) (idx - 1) with Some s => s | None => hd no_traffic (ts_strategies t) end.
 Definition mk_ctx (t : tr_spec) (u : sub) : tctx :=
   {| tc_refs := ts_refs t; tc_zero_grace := ts_zero_grace t; tc_strategy := tr_strategy t (su_idx u);
-     tc_stable_rev := su_stable u; tc_canary_rev := su_pth u; tc_last_update := Some (su_elapsed u); tc_key := true; tc_gateway_fails := false; tc_only_traffic := false |}.
+     tc_stable_rev := su_stable u; tc_canary_rev := su_pth u; tc_last_update := Some (su_elapsed u); tc_key := true; tc_gateway_fails := ts_gateway_fails t; tc_only_traffic := false |}.
 (* finalising may run without a workload: the revision label key is then unknown *)
 Definition mk_ctx_w (t : tr_spec) (u : sub) (w : wl) : tctx :=
   {| tc_refs := ts_refs t; tc_zero_grace := ts_zero_grace t; tc_strategy := tr_strategy t (su_idx u);
-     tc_stable_rev := su_stable u; tc_canary_rev := su_pth u; tc_last_update := Some (su_elapsed u); tc_key := wl_exists w; tc_gateway_fails := false; tc_only_traffic := false |}.
+     tc_stable_rev := su_stable u; tc_canary_rev := su_pth u; tc_last_update := Some (su_elapsed u); tc_key := wl_exists w; tc_gateway_fails := ts_gateway_fails t; tc_only_traffic := false |}.
 
 Definition touch (u : sub) (r : tres) : sub :=
   if tr_touched r then upd_sub u (su_idx u) (su_next u) (su_state u) (su_fin u) false else u.
@@ -187,8 +188,8 @@ Definition progressing_tr (t : tr_spec) (old s : ro_status) (w : wl) (br : optio
     if negb (wl_exists w) || negb (wl_consistent w) then tp s br false false [] g false else
     match reason with
     | PrInitializing =>
-      (* InitializeTrafficRouting: the stable Service must exist *)
-      if ts_refs t && negb (n_stable_exists n) then tp s br false false [] g true
+      (* InitializeTrafficRouting: the stable Service must exist and the gateway object must be readable *)
+      if ts_refs t && (negb (n_stable_exists n) || ts_gateway_fails t) then tp s br false false [] g true
       else of_prog (progressing sp old s w br) s br g
     | PrInRolling => in_rolling_tr t old s w br n g
     | PrFinalising =>
